@@ -9,6 +9,7 @@ import (
 	"evylang.dev/evy/vdrv/c08"
 	"evylang.dev/evy/vdrv/c14"
 	"evylang.dev/evy/vdrv/c15"
+	"evylang.dev/evy/vdrv/c18"
 	"evylang.dev/evy/vdrv/core"
 )
 
@@ -20,6 +21,8 @@ func driver(prop string) core.Driver {
 		return &c08.D{}
 	case "C15":
 		return &c15.D{}
+	case "C18":
+		return &c18.D{}
 	}
 	return nil
 }
